@@ -762,3 +762,93 @@ Proof.
     destruct (IH rs' eq_refl) as (rr & -> & Hr). exists (hw_rows b evs :: rr). split; [reflexivity|].
     constructor; [|assumption]. apply hw_rows_edges.
 Qed.
+
+(* ================================================================================================
+   10. failure: exactly the malformed boards, and then the whole run fails (before any file is created)
+   ================================================================================================ *)
+Inductive board_bad (buf : list N) : Prop :=
+| Bad_remainder p es r :           (* complete elements p, then a non-empty rest that starts with no complete element *)
+    buf = p ++ r -> Elems p es -> r <> [] -> next r = None -> board_bad buf
+| Bad_no_epoch0 es :               (* well-formed, but no marker with counter 0 *)
+    Elems buf es -> forallb (fun e => negb (is_mk0 e)) es = true -> board_bad buf
+| Bad_first_marker pre post :      (* the first counter-0 marker has its top bit set *)
+    Elems buf (pre ++ MK true 0 :: post) -> forallb (fun e => negb (is_mk0 e)) pre = true -> board_bad buf.
+
+Theorem cb_board_fail_iff buf : (exists k, cb_board_fifo buf = Err k) <-> board_bad buf.
+Proof.
+  split.
+  - intros (k & Hk). rewrite cb_board_fifo_eq in Hk. destruct (cb_fifo buf) as [es r] eqn:Ef.
+    destruct (cb_sound_maximal_lemma _ _ _ Ef) as (p & -> & He & Hm). apply next_none_iff in Hm.
+    destruct r as [|x r].
+    + rewrite app_nil_r in *. destruct (from_first is_mk0 es) as [s|] eqn:Es.
+      * destruct (from_first_head _ _ _ Es) as (x & t & -> & Hx).
+        destruct x as [? ? ?|top c]; [discriminate|]. cbn [is_mk0] in Hx. apply N.eqb_eq in Hx. subst c.
+        destruct top; [|discriminate]. destruct (from_first_split _ _ _ Es) as (pre & -> & Hp).
+        eapply Bad_first_marker; eassumption.
+      * apply from_first_none in Es. eapply Bad_no_epoch0; eassumption.
+    + eapply Bad_remainder; [reflexivity|eassumption|discriminate|assumption].
+  - intros [p es r -> He Hr Hn|es He Hf|pre post He Hf].
+    + eexists. apply cb_board_fail_remainder with (es := es); assumption.
+    + eexists. eapply cb_board_fail_no_epoch0; eassumption.
+    + eexists. eapply cb_board_fail_bad_first; [eassumption|assumption|reflexivity].
+Qed.
+
+Lemma cb_fifos_err_inv : forall m k, cb_fifos m = Err k -> exists b buf k', In (b, buf) m /\ cb_board_fifo buf = Err k'.
+Proof.
+  induction m as [|[b buf] m IH]; intros k; cbn [cb_fifos]; [discriminate|].
+  destruct (cb_board_fifo buf) as [f|k'|] eqn:Eb; cbn [bind].
+  - destruct (cb_fifos m) as [fs|k'|] eqn:Ef; cbn [bind]; try discriminate.
+    intros _. destruct (IH k' eq_refl) as (b0 & buf0 & k0 & Hi & He). exists b0, buf0, k0. split; [right|]; assumption.
+  - intros _. exists b, buf, k'. split; [left; reflexivity|assumption].
+  - discriminate.
+Qed.
+
+Lemma sorted_in_lookup : forall m b buf, sorted m -> In (b, buf) m -> bt_lookup m b = Some buf.
+Proof.
+  unfold sorted. induction m as [|[b' buf'] m IH]; intros b buf Hs Hi; [destruct Hi|].
+  cbn [keys map fst] in Hs. apply StronglySorted_inv in Hs. destruct Hs as [Hs Hf]. cbn [bt_lookup].
+  destruct Hi as [[= -> ->]|Hi]; [rewrite N.eqb_refl; reflexivity|].
+  assert (b' < b). { rewrite Forall_forall in Hf. apply Hf. unfold keys. apply (in_map fst _ _ Hi). }
+  destruct (N.eqb_spec b b'); [lia|]. apply IH; assumption.
+Qed.
+
+Lemma cb_buffers_in pieces b buf :
+  In (b, buf) (cb_buffers pieces) <-> present b pieces = true /\ buf = concat_of b pieces.
+Proof.
+  destruct (cb_buffers_spec pieces) as [S L]. split.
+  - intros Hi. pose proof (sorted_in_lookup _ _ _ S Hi) as Hl. rewrite L in Hl.
+    destruct (present b pieces); [|discriminate]. injection Hl as <-. auto.
+  - intros [Hp ->]. specialize (L b). rewrite Hp in L. revert L. generalize (cb_buffers pieces) as m.
+    induction m as [|[b' buf'] m IH]; cbn [bt_lookup]; [discriminate|].
+    destruct (N.eqb_spec b b') as [->|Hne]; [intros [= ->]; left; reflexivity|]. intros H. right. apply IH. assumption.
+Qed.
+
+(* the run fails (and then no CSV is created) exactly when some board that has a bank is malformed *)
+Theorem cb_program_fail_iff pieces :
+  (exists k, cb_program pieces = Err k) <->
+  (exists b, present b pieces = true /\ board_bad (concat_of b pieces)).
+Proof.
+  split.
+  - intros (k & Hk). unfold cb_program in Hk.
+    destruct (cb_fifos (cb_buffers pieces)) as [fs|k'|] eqn:Ef; cbn [bind] in Hk.
+    + rewrite all_rows_spec in Hk. discriminate.
+    + destruct (cb_fifos_err_inv _ _ Ef) as (b & buf & k0 & Hi & He).
+      apply cb_buffers_in in Hi. destruct Hi as [Hp ->]. exists b. split; [assumption|].
+      apply cb_board_fail_iff. eauto.
+    + discriminate.
+  - intros (b & Hp & Hb). apply cb_board_fail_iff in Hb. destruct Hb as (k & Hk).
+    apply (cb_program_fail pieces b (concat_of b pieces) k); [apply cb_buffers_in; auto|assumption].
+Qed.
+
+(* ---------- the boolean well-formedness check used by the model runner implies hw_wf ---------- *)
+Lemma hw_wfb_sound : forall evs k, hw_wfb_from k evs = true -> hw_wf k evs.
+Proof.
+  induction evs as [|ev r IH]; intros k H; [exact I|].
+  destruct ev as [T ch tr|c|body]; cbn [hw_wfb_from hw_wf] in *.
+  - apply andb_true_iff in H. destruct H as [H H4]. apply andb_true_iff in H. destruct H as [H H3].
+    apply andb_true_iff in H. destruct H as [H1 H2].
+    apply N.ltb_lt in H1, H3. apply N.leb_le in H2. auto.
+  - apply andb_true_iff in H. destruct H as [H H3]. apply andb_true_iff in H. destruct H as [H1 H2].
+    apply N.eqb_eq in H1. apply N.ltb_lt in H2. auto.
+  - apply andb_true_iff in H. destruct H as [H1 H2]. apply N.eqb_eq in H1. auto.
+Qed.
